@@ -18,6 +18,16 @@ import (
 
 const vMs = int64(time.Millisecond)
 
+// vUnit: one scenario "millisecond".  Under the engine time is logical and a unit is 1 ms;
+// natively it is 10 ms of real time, so that the three durations (200/400/800 ms) stay apart by
+// far more than the scheduling delays of a loaded machine (the native slack is 150 ms).
+func vUnit() int64 {
+	if vSymbolic() {
+		return vMs
+	}
+	return 10 * vMs
+}
+
 var (
 	vClock  int64
 	vTimers []*vTimer
@@ -189,6 +199,8 @@ type vDConn struct {
 	cancelLate           bool // ... at its end instead of its start
 	ctx                  *vCtx
 	silent               bool // the peer never answers
+	partial              bool // ... after sending the status line and part of a header line
+	sentPrefix           bool
 	refuse               bool // the peer answers 400 (a non-timeout handshake failure)
 	hold                 bool // natively: hold the watcher inside its poisoning SetDeadline until Dial returned (<= 50 ms)
 	watcherIn            bool
@@ -275,6 +287,10 @@ func (c *vDConn) Read(p []byte) (int, error) {
 		return 0, vTimeoutErr{}
 	}
 	if c.silent {
+		if c.partial && !c.sentPrefix {
+			c.sentPrefix = true
+			return copy(p, "HTTP/1.1 101 Switching Protocols\r\nUpgrade: websocket\r\nConnec"), nil
+		}
 		vWait(c.expired)
 		return 0, vTimeoutErr{}
 	}
